@@ -8,7 +8,24 @@ pub mod sim;
 
 use common::{Args, Report};
 
+/// The mock server's own binary entry point (argument parsing, key loading, start-up), compiled in unchanged.
+#[allow(dead_code, unused_imports, unexpected_cfgs)]
+mod mock_main {
+    include!(concat!(env!("OUT_DIR"), "/mock_main.rs"));
+    pub fn run() -> Result<(), anyhow::Error> {
+        main()
+    }
+}
+
 fn main() {
+    if std::env::var_os("VERIF_AS_MOCK_MAIN").is_some() {
+        // child-process mode: behave exactly like the mock-omaha-server binary with the given arguments
+        if let Err(e) = mock_main::run() {
+            eprintln!("mock server exited: {e}");
+            std::process::exit(1);
+        }
+        return;
+    }
     let argv: Vec<String> = std::env::args().skip(1).collect();
     let args = Args::parse(&argv);
     // anyhow captures a backtrace per error when RUST_BACKTRACE is set: slow and irrelevant here
